@@ -15,6 +15,7 @@
 package ggql
 
 import (
+	"math"
 	"strconv"
 )
 
@@ -59,6 +60,11 @@ func (*int64Scalar) CoerceIn(v interface{}) (interface{}, error) {
 // CoerceOut coerces a result value into a type for the scalar.
 func (t *int64Scalar) CoerceOut(v interface{}) (interface{}, error) {
 	var err error
+	// Only a number that fits in 64 bits can be an Int64. (A fraction is
+	// dropped.)
+	if f, ok := numberAsFloat(v); ok && (math.IsNaN(f) || f < math.MinInt64 || math.MaxInt64 < f) {
+		return nil, newCoerceErr(v, "Int64")
+	}
 	switch tv := v.(type) {
 	case nil:
 	// remains nil
